@@ -346,6 +346,80 @@ Fixpoint opt_list {A} (l : list (option A)) : list A :=
 Definition fs_ids (ext : string) (f : fstore) : list string :=
   ssort (dedup (opt_list (map (fun e => id_of_member ext (fst e)) f))).
 
+
+(* ------------------------------------------------------------------ a history on one kapture root *)
+(* One step of a history: the location of a feature / matches array is asked for ([h_write = false]) or the array
+   [h_mem] is written there ([h_write = true]).  [h_b] is the second image of a pair (matches only). *)
+Record hstep := { h_write : bool; h_api : api; h_ftype : string; h_a : string; h_b : string; h_mem : mem }.
+
+Definition kind_of_api (a : api) : string :=
+  match a with
+  | AKeypoints => "Keypoints" | ADescriptors => "Descriptors" | AGlobalFeatures => "GlobalFeatures"
+  | AMatches => "Matches" | ADepth => "Depth" | ARaw => "Raw"
+  end.
+
+(* what get_<kind>_fullpath returns: the full path below the root, or the tar member name.  It is a function of
+   the names ALONE: the store is not an argument. *)
+Definition hist_loc (st : store) (root : string) (s : hstep) : string :=
+  match st, h_api s with
+  | SFile, AMatches => matches_path root (h_ftype s) (h_a s) (h_b s)
+  | SFile, a => feature_path (kind_of_api a) root (h_ftype s) (h_a s)
+  | STar, AMatches => matches_tar_member (h_a s) (h_b s)
+  | STar, a => tar_member (kind_of_api a) (h_a s)
+  end.
+(* the key of the destination in the store of the whole root: the path, or kind|type|member for a tar archive
+   (one archive per feature kind and type) *)
+Definition hist_key (st : store) (root : string) (s : hstep) : string :=
+  match st with
+  | SFile => hist_loc st root s
+  | STar => kind_of_api (h_api s) ++ "|" ++ h_ftype s ++ "|" ++ hist_loc st root s
+  end.
+
+(* the store after a history: every accepted write replaces the content of its own destination *)
+Definition hist_step (cast : dtype -> N -> N) (st : store) (root : string) (f : fstore) (s : hstep) : fstore :=
+  if h_write s then
+    match write_api cast (h_api s) (h_mem s) with
+    | Written bs => fs_write (hist_key st root s) bs f
+    | _ => f
+    end
+  else f.
+Definition hist_run (cast : dtype -> N -> N) (st : store) (root : string) (steps : list hstep) (f : fstore) : fstore :=
+  fold_left (hist_step cast st root) steps f.
+
+(* the last array written in a history by a step that satisfies [p] (None: no such write) *)
+Fixpoint hist_last_by (cast : dtype -> N -> N) (p : hstep -> bool) (steps : list hstep) : option (list N) :=
+  match steps with
+  | [] => None
+  | s :: rest =>
+      match hist_last_by cast p rest with
+      | Some bs => Some bs
+      | None =>
+          if h_write s && p s then
+            match write_api cast (h_api s) (h_mem s) with Written bs => Some bs | _ => None end
+          else None
+      end
+  end.
+(* ... to the destination with key [k] *)
+Definition hist_last (cast : dtype -> N -> N) (st : store) (root : string) (k : string) (steps : list hstep)
+  : option (list N) := hist_last_by cast (fun s => String.eqb k (hist_key st root s)) steps.
+(* ... of the matches of the pair (a, b) for feature type [ftype]: selected by the NAMES, not by a path *)
+Definition same_pair (ftype a b : string) (s : hstep) : bool :=
+  String.eqb ftype (h_ftype s) && String.eqb a (h_a s) && String.eqb b (h_b s).
+
+(* a variant that is NOT the behaviour under test ("a pair is not oriented"): when the documented file of (a, b)
+   is missing and the file of (b, a) exists, the location of (b, a) is returned.  The location then depends on
+   the store. *)
+Definition matches_path_fallback (f : fstore) (root ftype a b : string) : string :=
+  match fs_read (matches_path root ftype a b) f, fs_read (matches_path root ftype b a) f with
+  | None, Some _ => matches_path root ftype b a
+  | _, _ => matches_path root ftype a b
+  end.
+Definition hist_step_fallback (root : string) (f : fstore) (s : hstep) : fstore :=
+  match write_api (fun _ n => n) (h_api s) (h_mem s) with
+  | Written bs => fs_write (matches_path_fallback f root (h_ftype s) (h_a s) (h_b s)) bs f
+  | _ => f
+  end.
+
 (* ------------------------------------------------------------------ correspondence *)
 Inductive wobs := WOk | WRefused | WIndexErr | WOther.
 Inductive robs :=
@@ -399,7 +473,11 @@ Inductive case :=
    write, the bytes found there and what the reader returns; [bystander] is another file of the same feature
    type written before, [oby] its bytes at the end *)
 | CRewrite (a : api) (st : store) (bystander : list N)
-           (steps : list (mem * wobs * list N * robs)) (oby : list N).
+           (steps : list (mem * wobs * list N * robs)) (oby : list N)
+(* a HISTORY on one kapture root "R": for every step the location the getter returned and the outcome of the write;
+   at the end the whole tree (every file / tar member with its bytes, [otree]) and, for the last write of every
+   destination, what the matching reader returned for the location the getter gives THEN ([ord], ONone otherwise) *)
+| CHist (st : store) (steps : list (hstep * string * wobs * robs)) (otree : list (string * list N)).
 
 (* a write REPLACES the content of its destination; the reader is given the element type / column count /
    (width, height) of the array just written *)
@@ -422,6 +500,34 @@ Fixpoint rewrite_run (a : api) (st : store) (f : fstore) (steps : list (mem * wo
       | IndexErr => wobs_eqb ow WIndexErr && rewrite_run a st f rest oby
       end
   end.
+
+
+Definition hist_root : string := "R".
+Definition wobs_of (h : hstep) : wobs :=
+  if h_write h then
+    match write_api (fun _ n => n) (h_api h) (h_mem h) with Written _ => WOk | Refused => WRefused | IndexErr => WIndexErr end
+  else WOk.
+Definition hist_check (st : store) (steps : list (hstep * string * wobs * robs)) (otree : list (string * list N)) : bool :=
+  let hs := map (fun x => fst (fst (fst x))) steps in
+  let f := hist_run (fun _ n => n) st hist_root hs [] in
+  (* every location returned is the location of the names, every outcome is the modelled one *)
+  forallb (fun x => match x with (h, opath, ow, _) =>
+                      String.eqb (hist_loc st hist_root h) opath && wobs_eqb (wobs_of h) ow end) steps
+  (* the tree is exactly the store of the model: same keys, same bytes *)
+  && forallb (fun e => match fs_read (fst e) f with Some bs => eqb bs (snd e) | None => false end) otree
+  && forallb (fun k => memb k (map fst otree)) (map fst f)
+  && Nat.eqb (List.length otree) (List.length (dedup (map fst f)))
+  (* what is read back at the end *)
+  && forallb (fun x => match x with (h, _, _, ord) =>
+                match ord with
+                | ONone => true
+                | _ => match fs_read (hist_key st hist_root h) f with
+                       | Some bs =>
+                           let c := match m_shape (h_mem h) with [_; c] => Z.of_N c | _ => 1%Z end in
+                           robs_eqb (robs_of (read_api (h_api h) st (m_dtype (h_mem h)) c 0 0 bs)) ord
+                       | None => false
+                       end
+                end end) steps.
 
 Definition check_case (c : case) : bool :=
   match c with
@@ -462,4 +568,5 @@ Definition check_case (c : case) : bool :=
       end
       && eqb (fs_ids (ext_of kind) f) oids
   | CRewrite a st bystander steps oby => rewrite_run a st (fs_write "other" bystander []) steps oby
+  | CHist st steps otree => hist_check st steps otree
   end.
